@@ -12,10 +12,11 @@ Open Scope Z_scope.
                          (0 1) if it yields exactly (s, rest), (0 0) otherwise
      (3 inc hlp glb fns ult setup loop)   each section a list of bodies ((defs) (uses)),
                          setup/loop one body
-                      -> (0 kinds wf guard undeclared)
-                         kinds = ranks of the stitched items in order,
-                         undeclared = ((pos ident) ...)
-     (4 ... same ...) -> the same for stitch_proto / guard_proto
+                      -> (0 kinds wf guard undeclared protos)
+                         kinds = ranks of the stitched items in order (the prototypes the emitter generates
+                         from fns and ult included), undeclared = ((pos ident) ...),
+                         protos = the names each generated prototype declares ((ident ...) ...), in order
+     (4 ... same ...) -> the same for stitch_noproto / guard_noproto, the order BEFORE the repair (protos empty)
      (5 pre mainopt)  -> annotated statement program (encoding of Wire/C01_stmtW.v) through
                          Lang.Transl.transl and Lang.Scope:
                          (0 1 setup_ok loop_ok all_ok_with_aug setup_has_no_toplevel_local) | (0 0) rejected
@@ -72,11 +73,12 @@ Definition un_sketch (inc hlp glb fns ult st lp : wv) : option sketch :=
   | _, _, _, _, _, _, _ => None
   end.
 
-Definition enc_items (l : list item) (g : bool) : wv :=
+Definition enc_items (l : list item) (g : bool) (ps : list item) : wv :=
   wok [ WL (map (fun it => WI (rank (ikind it))) l);
         wbool (wf_order l);
         wbool g;
-        WL (map (fun pu => WL [WI (fst pu); WI (snd pu)]) (undeclared l)) ].
+        WL (map (fun pu => WL [WI (fst pu); WI (snd pu)]) (undeclared l));
+        WL (map (fun it => WL (map WI (idefs it))) ps) ].
 
 Section UnList.
   Context {A : Type} (f : wv -> option A).
@@ -229,12 +231,12 @@ Definition run (v : wv) : wv :=
       end
   | WL [WI 3; inc; hlp; glb; fns; ult; st; lp] =>
       match un_sketch inc hlp glb fns ult st lp with
-      | Some sk => enc_items (stitch sk) (guard sk)
+      | Some sk => enc_items (stitch sk) (guard sk) (protos sk)
       | None => wbad
       end
   | WL [WI 4; inc; hlp; glb; fns; ult; st; lp] =>
       match un_sketch inc hlp glb fns ult st lp with
-      | Some sk => enc_items (stitch_proto sk) (guard_proto sk)
+      | Some sk => enc_items (stitch_noproto sk) (guard_noproto sk) []
       | None => wbad
       end
   | WL [WI 5; WL pre; WL mainopt] =>
